@@ -79,6 +79,7 @@ sorted_view_(nullptr)
 
 template<typename T, typename C, typename A>
 req_sketch<T, C, A>& req_sketch<T, C, A>::operator=(const req_sketch& other) {
+  reset_sorted_view(); // release the cached view while allocator_ is still the one that allocated it
   req_sketch copy(other);
   std::swap(comparator_, copy.comparator_);
   std::swap(allocator_, copy.allocator_);
@@ -90,12 +91,13 @@ req_sketch<T, C, A>& req_sketch<T, C, A>::operator=(const req_sketch& other) {
   std::swap(compactors_, copy.compactors_);
   std::swap(min_item_, copy.min_item_);
   std::swap(max_item_, copy.max_item_);
-  reset_sorted_view();
   return *this;
 }
 
 template<typename T, typename C, typename A>
 req_sketch<T, C, A>& req_sketch<T, C, A>::operator=(req_sketch&& other) {
+  reset_sorted_view(); // release the cached view while allocator_ is still the one that allocated it
+  other.reset_sorted_view();
   std::swap(comparator_, other.comparator_);
   std::swap(allocator_, other.allocator_);
   std::swap(k_, other.k_);
@@ -106,7 +108,6 @@ req_sketch<T, C, A>& req_sketch<T, C, A>::operator=(req_sketch&& other) {
   std::swap(compactors_, other.compactors_);
   std::swap(min_item_, other.min_item_);
   std::swap(max_item_, other.max_item_);
-  reset_sorted_view();
   return *this;
 }
 
